@@ -31,6 +31,23 @@ fn worker_exe() -> PathBuf {
 
 /// ref values the way git sees them: name -> "id:<hex>" | "sym:<target>"; broken refs are reported in `Err`.
 fn git_view(git_dir: &Path) -> Result<BTreeMap<String, String>, String> {
+    // git's answer depends only on HEAD, refs/ and packed-refs (objects never change): ask once per distinct content
+    static MEMO: Mutex<BTreeMap<u64, Result<BTreeMap<String, String>, String>>> = Mutex::new(BTreeMap::new());
+    let key = {
+        let mut parts: Vec<(String, (char, u32, Vec<u8>))> = vkit::scratch::snapshot(&git_dir.join("refs")).into_iter().collect();
+        parts.push(("HEAD".into(), ('f', 0, std::fs::read(git_dir.join("HEAD")).unwrap_or_default())));
+        parts.push(("packed-refs".into(), ('f', 0, std::fs::read(git_dir.join("packed-refs")).unwrap_or(b"<none>".to_vec()))));
+        vkit::hash_of(&parts)
+    };
+    if let Some(v) = MEMO.lock().unwrap().get(&key) {
+        return v.clone();
+    }
+    let v = git_view_uncached(git_dir);
+    MEMO.lock().unwrap().insert(key, v.clone());
+    v
+}
+
+fn git_view_uncached(git_dir: &Path) -> Result<BTreeMap<String, String>, String> {
     let out = vkit::git::try_git(git_dir, &["for-each-ref", "--format=%(refname) %(objectname) %(symref)"]);
     if !out.ok || !out.stderr.is_empty() {
         return Err(format!("git for-each-ref: status {:?} stderr {:?}", out.code, out.err_text()));
@@ -129,6 +146,9 @@ fn make_base(root: &Path, init: u8) -> Base {
     if init >= 2 {
         g(&["update-ref", "refs/heads/a", &c2]);
     }
+    // the sample hooks and the description are irrelevant and only make every copy and snapshot slower
+    let _ = std::fs::remove_dir_all(dir.join("hooks"));
+    let _ = std::fs::remove_file(dir.join("description"));
     let old = git_view(&dir).unwrap_or_else(|e| vkit::machinery!("base store unreadable: {e}"));
     Base { packed_old: std::fs::read(dir.join("packed-refs")).ok(), files_old: files_of(&dir), dir, ids: vec![c1, c2], old }
 }
@@ -145,9 +165,15 @@ fn spec_file(dir: &Path, git_dir: &Path, base: &Base, tx: &Tx, idle: bool) -> Pa
 fn run_worker(spec: &Path, log: Option<&Path>, inject: Option<(&str, usize)>) -> (Option<i32>, Vec<String>) {
     let mut c = Command::new("strace");
     c.arg("-qq").arg("-o").arg(log.map(|p| p.display().to_string()).unwrap_or("/dev/null".into()));
-    c.arg("-e").arg(format!("trace={}", SYSCALLS.join(",")));
-    if let Some((name, nth)) = inject {
-        c.arg("-e").arg(format!("inject={name}:error=EIO:signal=KILL:when={nth}"));
+    match inject {
+        // only the injected syscall needs to be traced for a crash run: fewer ptrace stops
+        Some((name, nth)) => {
+            c.arg("-e").arg(format!("trace={name}"));
+            c.arg("-e").arg(format!("inject={name}:error=EIO:signal=KILL:when={nth}"));
+        }
+        None => {
+            c.arg("-e").arg(format!("trace={}", SYSCALLS.join(",")));
+        }
     }
     c.arg(worker_exe()).arg("--worker").arg(spec);
     c.env("RUST_BACKTRACE", "0");
@@ -159,7 +185,9 @@ fn run_worker(spec: &Path, log: Option<&Path>, inject: Option<(&str, usize)>) ->
             if let Some(p) = l.find('(') {
                 let name = l[..p].trim();
                 if SYSCALLS.contains(&name) {
-                    calls.push(name.to_string());
+                    // a read-only open changes nothing on disk: a crash before it equals a crash before the next mutating call
+                    let read_only = name.starts_with("open") && l.contains("O_RDONLY");
+                    calls.push(if read_only { format!("{name}:ro") } else { name.to_string() });
                 }
             }
         }
@@ -229,7 +257,7 @@ fn alphabet(run: &Run) -> Vec<Tx> {
             for (ei, e) in singles.into_iter().enumerate() {
                 // quick: the full single-edit alphabet on store 2 only; on the simpler stores a representative third
                 // (update a, delete a, create new, HEAD through deref, delete tag) with two packed-refs modes
-                if q && init != 2 && !(matches!(ei, 0 | 3 | 5 | 9 | 11) && packed != 1) {
+                if q && (init != 2 && !(matches!(ei, 0 | 3 | 9) && packed == 2 - init) || init == 2 && packed == 1 && !matches!(ei, 0 | 5 | 9 | 13)) {
                     continue;
                 }
                 txs.push(Tx { init, edits: vec![e], packed });
@@ -280,7 +308,7 @@ pub fn run(run: &'static Run) {
         }
         let mut m = BTreeMap::new();
         for c in calls {
-            *m.entry(c).or_default() += 1;
+            *m.entry(c.trim_end_matches(":ro").to_string()).or_default() += 1;
         }
         m
     };
@@ -306,9 +334,11 @@ pub fn run(run: &'static Run) {
         let mut seen: BTreeMap<String, usize> = BTreeMap::new();
         let mut points = Vec::new();
         for c in calls {
+            let read_only = c.ends_with(":ro");
+            let c = c.trim_end_matches(":ro").to_string();
             let n = seen.entry(c.clone()).or_default();
             *n += 1;
-            if *n > idle_counts.get(&c).copied().unwrap_or(0) {
+            if *n > idle_counts.get(&c).copied().unwrap_or(0) && !read_only {
                 points.push((c, *n));
             }
         }
@@ -381,18 +411,28 @@ pub fn run(run: &'static Run) {
     let n_cases = cases.len();
     run.sub_with("crash", vkit::Opts::default().chunk(256), |emit| cases.into_iter().for_each(|c| emit(c)), eval);
     run.cov("syscalls_injected", run.sub_evaluations("crash"));
+    run.cov("phase_seconds_copy_strace_gitview_gixview", T_US.iter().map(|a| a.load(std::sync::atomic::Ordering::Relaxed) as f64 / 1e6).collect::<Vec<_>>());
     run.require("every counted syscall was used as a crash point", run.over_budget() || run.sub_evaluations("crash") as usize == n_cases);
     run.require("some crash left a genuinely intermediate state", run.outcome_count("intermediate-state") > 0);
 }
 
+static T_US: [std::sync::atomic::AtomicU64; 5] = [const { std::sync::atomic::AtomicU64::new(0) }; 5];
+fn lap(i: usize, t: &mut std::time::Instant) {
+    T_US[i].fetch_add(t.elapsed().as_micros() as u64, std::sync::atomic::Ordering::Relaxed);
+    *t = std::time::Instant::now();
+}
+
 fn check_crash(base: &Base, plan: &Plan, c: &CrashCase) -> Verdict {
+    let mut t = std::time::Instant::now();
     let d = vkit::scratch::Dir::new("crash");
     let gd = d.join("repo.git");
     vkit::scratch::copy_tree(&base.dir, &gd).unwrap_or_else(|e| vkit::machinery!("copy: {e}"));
     let spec = spec_file(d.path(), &gd, base, &c.tx, false);
     let snap_old = snap_hash(&gd);
     let inject = c.point.as_ref().map(|(n, k)| (n.as_str(), *k));
+    lap(0, &mut t);
     let (code, _) = run_worker(&spec, None, inject);
+    lap(1, &mut t);
     if inject.is_some() && code.is_some() {
         // the injection point was not reached (the run is deterministic, so this is a machinery problem)
         vkit::machinery!("fault injection at {:?} did not kill the worker (exit {code:?}) for {:?}", c.point, c.tx);
@@ -409,6 +449,7 @@ fn check_crash(base: &Base, plan: &Plan, c: &CrashCase) -> Verdict {
             return bad("ref-neither-old-nor-new", format!("git reads {n} = {:?}; old {:?} new {:?}", gv.get(*n), base.old.get(*n), plan.new.get(*n)));
         }
     }
+    lap(2, &mut t);
     let xv = match gix_view(&gd) {
         Ok(v) => v,
         Err(e) => return bad("gitoxide-cannot-read", e),
@@ -422,6 +463,7 @@ fn check_crash(base: &Base, plan: &Plan, c: &CrashCase) -> Verdict {
             return bad("readers-disagree", format!("{n}: gitoxide {:?} git {:?}", xv.get(&n), gv.get(&n)));
         }
     }
+    lap(3, &mut t);
     let packed = std::fs::read(gd.join("packed-refs")).ok();
     if packed != base.packed_old && packed != plan.packed_new {
         return bad("packed-refs-torn", format!("packed-refs is neither the old nor the new file: {:?}", packed.map(|b| String::from_utf8_lossy(&b).into_owned())));
